@@ -42,8 +42,11 @@ fn dispatch(name: &str, s: &mut src::ReplaySrc) -> bool {
         "member_consistency" => fields::member_consistency_body(s),
         "intersection_in_boxes_f64" => intersect::intersection_in_boxes_body::<f64, _>(s),
         "intersection_in_boxes_f32" => intersect::intersection_in_boxes_body::<f32, _>(s),
-        "possible_intersection_contract_f64" => divide::possible_intersection_contract_body::<f64, _>(s),
-        "possible_intersection_contract_f32" => divide::possible_intersection_contract_body::<f32, _>(s),
+        "possible_intersection_none_f64" => divide::possible_intersection_contract_body::<f64, _>(s, 0),
+        "possible_intersection_point_f64" => divide::possible_intersection_contract_body::<f64, _>(s, 1),
+        "possible_intersection_overlap_f64" => divide::possible_intersection_contract_body::<f64, _>(s, 2),
+        "possible_intersection_point_f32" => divide::possible_intersection_contract_body::<f32, _>(s, 1),
+        "possible_intersection_overlap_f32" => divide::possible_intersection_contract_body::<f32, _>(s, 2),
         "divide_segment_n2_instance" => divide::divide_segment_n2_instance_body(s),
         "divide_segment_contract_f64" => divide::divide_segment_contract_body::<f64, _>(s),
         "divide_segment_contract_f32" => divide::divide_segment_contract_body::<f32, _>(s),
